@@ -2115,6 +2115,42 @@ def m_sj_to_string(ex, a, m):
     except JsonSerErr as e: return e.r
     return ok(StrV(tree_text(ex, t)))
 
+# ------------------------------------------------------------------------------------------ serde_json::Value inspection API
+@model_rx(r'^(?:serde_json::)?(?:value::)?Value::(is_null|is_boolean|is_number|is_string|is_array|is_object|is_i64|is_u64|is_f64|as_null|as_bool|as_str|as_array|as_object|as_array_mut|as_object_mut|as_i64|as_u64|as_f64|as_number)$')
+def m_value_api(ex, a, m):
+    op = m.group(1); v = deref_all(a[0]) if isinstance(a[0], Ptr) else a[0]
+    if not (isinstance(v, Agg) and v.ty == 'Value'): raise Unsupported('serde_json::Value API on a foreign value')
+    if v.lazy is not None: ex.materialize(v)
+    k = v.variant
+    kinds = {'is_null': 'Null', 'is_boolean': 'Bool', 'is_number': 'Number', 'is_string': 'String', 'is_array': 'Array', 'is_object': 'Object'}
+    if op in kinds: return Bool(k == kinds[op])
+    if op == 'as_null': return some(UNIT) if k == 'Null' else none()
+    if op == 'as_bool': return some(v.fields[0].v) if k == 'Bool' else none()
+    if op == 'as_str': return some(Ptr(v.fields[0], 'ref')) if k == 'String' else none()
+    if op in ('as_array', 'as_array_mut'): return some(Ptr(v.fields[0], 'ref')) if k == 'Array' else none()
+    if op in ('as_object', 'as_object_mut'): return some(Ptr(v.fields[0], 'ref')) if k == 'Object' else none()
+    if op == 'as_number': return some(Ptr(v.fields[0], 'ref')) if k == 'Number' else none()
+    if k != 'Number': return Bool(False) if op.startswith('is_') else none()
+    n = v.fields[0].v
+    if op == 'is_f64': return Bool(n.kind == 'float')
+    if op == 'is_u64': return Bool(n.kind == 'pos')
+    if op == 'is_i64':
+        if n.kind == 'neg': return Bool(True)
+        if n.kind == 'float': return Bool(False)
+        return Bool(z3.ULE(n.val.bv, z3.BitVecVal((1 << 63) - 1, 64))) if n.val.concrete() is None else Bool(n.val.concrete() <= (1 << 63) - 1)
+    if op == 'as_f64':
+        if n.kind == 'float': return some(n.val)
+        return some(F64(z3.fpToFP(z3.RNE(), n.val.bv, z3.Float64()) if n.kind == 'neg' else z3.fpToFPUnsigned(z3.RNE(), n.val.bv, z3.Float64())) if n.val.concrete() is None else F64(float(n.val.concrete())))
+    if op == 'as_u64': return some(Int(n.val.bv, 'u64') if n.val.concrete() is None else Int(n.val.concrete(), 'u64')) if n.kind == 'pos' else none()
+    if op == 'as_i64':
+        if n.kind == 'neg': return some(Int(n.val.bv, 'i64') if n.val.concrete() is None else Int(n.val.concrete(), 'i64'))
+        if n.kind == 'float': return none()
+        c = n.val.concrete()
+        if c is not None: return some(Int(c, 'i64')) if c <= (1 << 63) - 1 else none()
+        fits = ex.choose([(True, z3.ULE(n.val.bv, z3.BitVecVal((1 << 63) - 1, 64))), (False, z3.UGT(n.val.bv, z3.BitVecVal((1 << 63) - 1, 64)))])
+        return some(Int(n.val.bv, 'i64')) if fits else none()
+    raise Unsupported('Value::' + op)
+
 # ------------------------------------------------------------------------------------------ OnceLock / OnceCell: a cell holding an Option
 @model_rx(r'^(?:std::sync::|std::cell::|core::cell::|once_cell::\w+::)?(OnceLock|OnceCell)::(new|get|get_mut|set|get_or_init|into_inner|take|try_insert)$')
 def m_once(ex, a, m):
